@@ -557,6 +557,10 @@ func init() {
 			ret(st, f, nil)
 		},
 		"vTier": func(st *State, f *Frame, c *ssa.Call, a []Value) { ret(st, f, C(64, uint64(TierN))) },
+		"vMapOrderFixed": func(st *State, f *Frame, c *ssa.Call, a []Value) {
+			st.mapFixed = st.concretize(a[0].(*Term)) != 0
+			ret(st, f, nil)
+		},
 		"vGCCheck": func(st *State, f *Frame, c *ssa.Call, a []Value) { st.gcCheck = true; ret(st, f, nil) },
 		"vTrack":   func(st *State, f *Frame, c *ssa.Call, a []Value) { ret(st, f, nil) },
 		"vHeapString": func(st *State, f *Frame, c *ssa.Call, a []Value) {
